@@ -435,9 +435,15 @@ pub fn run(args: Args) {
 
     // 1. single key, exhaustive layouts
     // quick: three version shapes (none, release, pre-release+build); thorough: all six
-    let version_shapes: Vec<Option<&'static str>> =
-        if args.thorough() { versions() } else { vec![None, Some("1.2.3"), Some("0.3.0-alpha.1+b7")] };
-    for name in names() {
+    let version_shapes: Vec<Option<&'static str>> = if args.thorough() {
+        let mut v = versions();
+        v.extend([Some("10.20.30"), Some("1.0.0-0.3.7"), Some("1.0.0+20130313144700")]);
+        v
+    } else {
+        vec![None, Some("1.2.3"), Some("0.3.0-alpha.1+b7")]
+    };
+    let name_shapes: Vec<&'static str> = if args.thorough() { vec!["solo", "ns:pkg", "x:y:z", "kebab-ns:kebab-name"] } else { names() };
+    for name in name_shapes {
         for ver in version_shapes.clone() {
             let key = KeySpec { name: name.into(), version: ver.map(|s| s.to_string()) };
             for (olabel, ovs, oentries) in override_kinds(name) {
@@ -475,7 +481,7 @@ pub fn run(args: Args) {
     }
 
     // 2. several keys in one request: order, skipping, first error wins, shared directories
-    let nmulti = if args.thorough() { 6000 } else { 1200 };
+    let nmulti = if args.thorough() { 20000 } else { 1200 };
     let all_names = ["solo", "ns:pkg", "x:y:z", "ns:other", "x:y"];
     for _ in 0..nmulti {
         let take = mine(&mut idx);
